@@ -25,9 +25,11 @@ Definition rust_keywords : list string :=
 Definition not_keyword (s : string) : bool := negb (existsb (String.eqb s) rust_keywords).
 
 (** identifiers that [format_ident!] accepts (ASCII) *)
+(** bytes >= 128 belong to multi-byte UTF-8 letters: proc_macro2 accepts Unicode identifiers
+    (XID); treating every such byte as an identifier character approximates that *)
 Definition is_ident_start (c : ascii) : bool :=
   let n := N_of_ascii c in
-  (((65 <=? n) && (n <=? 90)) || ((97 <=? n) && (n <=? 122)) || (n =? 95))%N.
+  (((65 <=? n) && (n <=? 90)) || ((97 <=? n) && (n <=? 122)) || (n =? 95) || (128 <=? n))%N.
 Definition is_ident_continue (c : ascii) : bool :=
   let n := N_of_ascii c in is_ident_start c || ((48 <=? n) && (n <=? 57))%N.
 Definition plain_ident_ok (s : string) : bool :=
